@@ -1424,7 +1424,7 @@ int hwloc_bitmap_last(const struct hwloc_bitmap_s * set)
 		/* subsets are unsigned longs, use flsl */
 		unsigned long w = set->ulongs[i];
 		if (w)
-			return hwloc_flsl(w) - 1 + HWLOC_BITS_PER_LONG*i;
+			return hwloc_flsl(w) - 1 + HWLOC_BITS_PER_LONG*(unsigned)i;
 	}
 
 	return -1;
@@ -1443,7 +1443,7 @@ int hwloc_bitmap_last_unset(const struct hwloc_bitmap_s * set)
 		/* subsets are unsigned longs, use flsl */
 		unsigned long w = ~set->ulongs[i];
 		if (w)
-			return hwloc_flsl(w) - 1 + HWLOC_BITS_PER_LONG*i;
+			return hwloc_flsl(w) - 1 + HWLOC_BITS_PER_LONG*(unsigned)i;
 	}
 
 	return -1;
